@@ -46,7 +46,8 @@ shape("dep_manager", _MF + "dependency_management/dependency_manager.py", ["C14"
 
 shape("process_dependencies", _MF + "context.py", ["C14"],
       "dep_loop_form", "dep_loop", "FirstWinsBreak",
-      ["CodemodExecutionContext.process_dependencies", "CodemodExecutionContext.add_description"],
+      ["CodemodExecutionContext.process_dependencies", "CodemodExecutionContext.add_description",
+       "CodemodExecutionContext._writable_package_stores"],
       doc="process_dependencies: first store that yields a changeset wins (`break`); add_description notifications")
 
 shape("repo_manager", _MF + "project_analysis/python_repo_manager.py", ["C14"],
